@@ -116,6 +116,9 @@ def simulate(case):
         ax = rng.standard_normal(3)
         ax /= np.linalg.norm(ax)
         ang = np.radians(rng.uniform(-0.2, 0.2))
+        if case["seed"] % 4 == 2 and case["route"] == "api":
+            # a rougher start: the first assignment misses the highest orders, later passes have to pick them up
+            ang = np.radians(rng.uniform(0.45, 0.6) * rng.choice([-1.0, 1.0]))
         K = np.array([[0, -ax[2], ax[1]], [ax[2], 0, -ax[0]], [-ax[1], ax[0], 0]])
         dR = np.eye(3) + np.sin(ang) * K + (1 - np.cos(ang)) * (K @ K)
         ubi0 = np.linalg.inv(dR @ UB) * (1 + rng.uniform(-1e-3, 1e-3))
@@ -123,7 +126,7 @@ def simulate(case):
     return p, cell, sym, symname, grains, starts, rows
 
 
-def write_inputs(d, p, cell, sym, starts, rows, with_t, oldnames=False):
+def write_inputs(d, p, cell, sym, starts, rows, with_t, oldnames=False, stale=False):
     from ImageD11 import columnfile, parameters, grain
     n = len(rows)
     # peak files name the detector coordinates sc/fc; files from the older merging program call them xc/yc
@@ -131,6 +134,13 @@ def write_inputs(d, p, cell, sym, starts, rows, with_t, oldnames=False):
     cf = columnfile.colfile_from_dict({a: rows[:, 0].copy(), b: rows[:, 1].copy(), "omega": rows[:, 2].copy(),
                                        "Number_of_pixels": np.full(n, 10.0), "sum_intensity": np.full(n, 1000.0),
                                        "avg_intensity": np.full(n, 100.0)})
+    if stale:
+        # a peak file saved earlier with lab coordinates from another calibration: sc, fc and the current parameters
+        # are what counts
+        xyz = O.geo_xyz_lab(rows[:, 0], rows[:, 1], dict(p, distance=p["distance"] * 1.03, y_center=p["y_center"] + 4.0,
+                                                         tilt_x=p["tilt_x"] + 0.01))
+        for k_, nm_ in enumerate(("xl", "yl", "zl")):
+            cf.addcolumn(np.asarray(xyz[k_], float).copy(), nm_)
     allp = dict(p)
     allp.update({"cell__a": cell[0], "cell__b": cell[1], "cell__c": cell[2], "cell_alpha": cell[3],
                  "cell_beta": cell[4], "cell_gamma": cell[5], "cell_lattice_[P,A,B,C,I,F,R]": sym})
@@ -171,7 +181,7 @@ def check(case, rec=None):
         case["starts_with_t"], p["wedge"], p["chi"], p["omegasign"]) + " uniq=%s" % case.get("uniq")
     try:
         flt, par, ubi = write_inputs(d, p, cell, sym, starts, rows, case["starts_with_t"],
-                                     oldnames=(case["seed"] % 3 == 0))
+                                     oldnames=(case["seed"] % 3 == 0), stale=(case["seed"] % 4 == 1))
         out = os.path.join(d, "out.map")
         latsym = symname if case["constraint"] == "matching" else "triclinic"
         buf = io.StringIO()
